@@ -97,8 +97,9 @@ def main():
         if out['demo_confirms'] and out['tests_pass'] in (True, None):
             dst = os.path.join(VERIF, 'seeded', sid)
             os.makedirs(dst, exist_ok=True)
-            shutil.copy(os.path.join(src, 'patch.diff'), dst)
-            shutil.copy(os.path.join(src, 'demo.py'), dst)
+            if os.path.realpath(src) != os.path.realpath(dst):     # a refresh runs on the kept copy itself
+                shutil.copy(os.path.join(src, 'patch.diff'), dst)
+                shutil.copy(os.path.join(src, 'demo.py'), dst)
             m2 = {'property': prop, 'summary': meta.get('summary'), 'needs_to_manifest': meta.get('needs_to_manifest'),
                   'files_touched': meta.get('files_touched'),
                   'confirmed': {'patch_applies': True, 'demo_unchanged_rc': rc0, 'demo_changed_rc': rc1,
